@@ -606,6 +606,12 @@ def r14f(ctx, run):
         cases.append(("`pp.x = ..` with the parameter pp : %s (auto-deref through both levels)" % ppty.name,
                       {e["root"]: V("Expr::Param", {"idx": 0, "range": Term("pr")}), e["top"]: V("Expr::Member", {"previous": e["root"], "name": name("x")})},
                       {e["root"]: ppty, e["top"]: TyM("i32")}, {}, e["top"], want))
+        cases.append(("`pp[i] = ..` with the parameter pp : %s (an index goes through both levels too)" % ppty.name.replace("S", "[3]T"),
+                      {e["root"]: V("Expr::Param", {"idx": 0, "range": Term("pr")}), e["top"]: V("Expr::Index", {"source": e["root"], "index": Term("i")})},
+                      {e["root"]: ppty, e["top"]: TyM("T")}, {}, e["top"], want))
+        cases.append(("`l[i] = ..` with `l := pp`, pp : %s" % ppty.name.replace("S", "[3]T"),
+                      {e["root"]: V("Expr::Local", {"0": l1}), e["top"]: V("Expr::Index", {"source": e["root"], "index": Term("i")}), e["y"]: V("Expr::Param", {"idx": 0, "range": Term("pr")})},
+                      {e["root"]: ppty, e["top"]: TyM("T"), e["y"]: ppty}, {l1: Obj("LocalDef", mutable=True, value=e["y"], range=Term("lr"))}, e["top"], want))
     cases.append(("`pp^ = ..` with the parameter pp : ^mut ^S (one level: the inner pointer itself is replaced)",
                   {e["root"]: V("Expr::Param", {"idx": 0, "range": Term("pr")}), e["top"]: V("Expr::Deref", {"pointer": e["root"]})},
                   {e["root"]: PP, e["top"]: PP.sub}, {}, e["top"], True))
